@@ -1596,13 +1596,14 @@ impl<'a, R: FileManager> FrontendCtx<'a, R> {
                                 .error(anchor, DiagnosticInfoMessage::TypeArgumentCountMismatch);
                         }
 
+                        // type parameters are lexically scoped: inside this declaration only its own parameters are
+                        // visible, not those of the generic whose body referred to it
+                        let outer_scope = std::mem::take(&mut self.type_application_stack);
                         for (param, arg) in type_params.into_iter().zip(type_args.iter()) {
                             self.type_application_stack.push((param, arg.clone()));
                         }
                         let runtype = self.extract_type(&decl.type_ann, address.file.clone());
-                        for _ in type_args {
-                            self.type_application_stack.pop();
-                        }
+                        self.type_application_stack = outer_scope;
                         let runtype = runtype?;
                         Ok(self.with_jsdoc(&address.file, declaration_span, runtype))
                     }
@@ -1611,11 +1612,14 @@ impl<'a, R: FileManager> FrontendCtx<'a, R> {
                         local_address: address,
                         declaration_span,
                     } => {
+                        let outer_scope = std::mem::take(&mut self.type_application_stack);
                         let runtype = self.extract_interface_decl(
                             &t,
                             type_args,
                             module_item_address.file.clone(),
-                        )?;
+                        );
+                        self.type_application_stack = outer_scope;
+                        let runtype = runtype?;
                         Ok(self.with_jsdoc(&address.file, declaration_span, runtype))
                     }
                     AddressedType::Enum {
